@@ -23,3 +23,62 @@ def sim(p, ctx):
 
 def obligations(tier, seed):
     return profiles.obligations_for("C10", tier)
+
+
+def equiv(p, ctx):
+    """simulate(absence=L); remove_absence_time_list()  ==  simulate() without absence
+    (members without individually absent resources and without component-bound automatic tasks; flag False or no auto task)."""
+    from model.family import build, sim_kwargs
+    from model.observe import dump, concrete_sig
+    from props.histcore import Sim, diff_dumps, short_key
+
+    spec = p["spec"]
+    with Sim(ctx):
+        A = build(spec, p, ctx.symbolic)
+        okA, r = ctx.call(A.project.simulate, **sim_kwargs(A))
+        n_in = sum(1 for a in A.project.absence_time_list if a < A.project.time)
+        okR, r = ctx.call(A.project.remove_absence_time_list)
+        B = build(spec, p, ctx.symbolic)
+        kw = sim_kwargs(B)
+        kw["absence_time_list"] = []
+        okB, r = ctx.call(B.project.simulate, **kw)
+        if not (okA and okR and okB):
+            ctx.fail("C10:equivalence:raised")
+        else:
+            finished = int(B.project.status) == 1 and int(A.project.status) == 1
+            if finished:
+                k = diff_dumps(dump(B), dump(A))
+                if k is not None:
+                    ctx.fail("C10:equivalence:%s%s" % ("zero-work-auto-task:" if p.get("zero_auto") else "", short_key(k)))
+                    ctx.notes["differs_at"] = k
+                if n_in:
+                    ctx.cover("equivalence:absence-removed")
+    ctx.sig = concrete_sig(B)
+    ctx.nontrivial = n_in >= 1
+
+
+_sim_obligations = obligations
+REQUIRED_COVERS = {"any": profiles.REQUIRED["C10"] + ["equivalence:absence-removed"]}
+
+
+def obligations(tier, seed):
+    import itertools
+
+    obs = _sim_obligations(tier, seed)
+    thorough = tier == "thorough"
+    for k in (0, 1, 2, 3):
+        for layout in ("shared1", "private", "shared2"):
+            for rule in ((0, 5) if not thorough else (0, 1, 2, 3, 5, 6, 7, 8)):
+                for auto1 in (False, True):
+                    spec = {"tasks": [{"w": "$w0"}, {"w": "$w1", "auto": auto1}, {"w": "$w2"}], "edges": [[0, 1, k], [0, 2, 0]],
+                            "teams": profiles.layout_workers(layout, 3), "run": {"max_time": 14, "abs": ["$pa0", "$pa1"], "flag": False, "rule": rule}}
+                    # an automatic task with zero work is kept in a cube of its own (known finding: it is promoted at an absence
+                    # step and finishes without ever being logged WORKING), so that the main claim stays unmasked
+                    obs.append({"name": "equiv/k=%s/%s/rule=%d/auto1=%d" % (profiles.KN[k], layout, rule, auto1), "harness": "equiv", "cube": {"spec": spec},
+                                "params": [["w0", 0, 2], ["w1", 1 if auto1 else 0, 2], ["w2", 0, 2], ["pa0", 0, 5], ["pa1", 0, 8]], "pre": "pa0 < pa1",
+                                "timeout": 900 if thorough else 150, "engine": "zsym"})
+                    if auto1 and layout == "shared1" and rule == 0:
+                        obs.append({"name": "equiv0/k=%s/%s/rule=%d/zero-work-auto" % (profiles.KN[k], layout, rule), "harness": "equiv", "cube": {"spec": spec, "w1": 0, "zero_auto": True},
+                                    "params": [["w0", 0, 2], ["w2", 0, 2], ["pa0", 0, 5], ["pa1", 0, 8]], "pre": "pa0 < pa1",
+                                    "timeout": 900 if thorough else 150, "engine": "zsym"})
+    return obs
